@@ -82,6 +82,8 @@ func nearMiss(s string, variant string) string {
 			}
 		}
 		return s + ":443"
+	case "glob": // differs, but matches when the right value is read as a pattern
+		return globMiss(s)
 	case "nfd": // a combining sequence after the last character
 		return s + "\u0301"
 	}
@@ -89,7 +91,7 @@ func nearMiss(s string, variant string) string {
 }
 
 // urlVariants: values a URL-normalising comparison would wrongly equate with the right one.
-var urlVariants = []string{"userinfo", "fragment", "trailing-q", "pct-letter", "pct-slash", "host-case", "default-port", "nfd"}
+var urlVariants = []string{"glob", "userinfo", "fragment", "trailing-q", "pct-letter", "pct-slash", "host-case", "default-port", "nfd"}
 
 // cfgVariants name OTHER configured strings of the service provider: a value that the SP knows, but that is
 // not the one the checked field must equal (a check that compares against "any of my endpoints" accepts them).
